@@ -65,7 +65,8 @@ fn run_case<const M: usize>(rng: &mut Rng, sh: &mut Shard, case: u64) {
         _ => rng.usize_below(M + 1),
     };
     let k_groups = 1 + rng.usize_below(3);
-    let opts = GenOpts { max_strings: 6, max_string_len: 30, nasty_strings: true, ..Default::default() };
+    // names up to exactly the 64 bytes the API can hold (longer ones are C12's StringTooLong case)
+    let opts = GenOpts { max_strings: 6, max_string_len: *rng.pick(&[30usize, 64, 64]), nasty_strings: true, ..Default::default() };
     let mut descs: Vec<DeviceDesc> = (0..n)
         .map(|_| {
             let mut d = gen_desc(rng, &opts);
@@ -124,6 +125,9 @@ fn run_case<const M: usize>(rng: &mut Rng, sh: &mut Shard, case: u64) {
             (r.map(|x| x.map(|_| ())), obs, total, md.num_subdevices(), stations, states, malformed, sim.frames_tx, vh::vclock::now())
         })
     }));
+    if n <= M && descs.iter().any(|d| expected_name(d).len() == 64) {
+        sh.count("device_name_fills_the_64_byte_capacity");
+    }
     let nontrivial = n >= 2 || n > M || n == 0;
     sh.case(if nontrivial { Some(fnv_mix(fnv(scenario.to_string().as_bytes()), case)) } else { None });
     sh.count(&format!("devices.{}", if n == 0 { "0".into() } else if n > M { "over-capacity".to_string() } else if n == M { "at-capacity".into() } else { "some".into() }));
